@@ -22,6 +22,7 @@
 package vs
 
 import (
+	"runtime"
 	"runtime/debug"
 	"sync"
 	"sync/atomic"
@@ -35,12 +36,12 @@ import (
 
 // Src is the single source of nondeterminism of a run.
 type Src struct {
-	tape   []uint32
-	pos    int
-	state  uint64
-	Log    []uint32 // every choice actually taken, in order
-	Strict bool     // replay mode: a tape value out of range is a divergence
-	Div    bool     // set when Strict and the tape did not fit
+	tape    []uint32
+	pos     int
+	state   uint64
+	Log     []uint32 // every choice actually taken, in order
+	Strict  bool     // replay mode: a tape value out of range is a divergence
+	Div     bool     // set when Strict and the tape did not fit
 	padZero bool
 }
 
@@ -109,6 +110,7 @@ type Task struct {
 	Name    string
 	word    uint32
 	done    uint32
+	tid     uintptr // OS thread the task goroutine is locked to
 	cond    func() bool
 	dl      time.Time
 	hasDl   bool
@@ -128,25 +130,27 @@ type event struct {
 
 // Kernel schedules tasks. Exactly one Kernel is active per process at a time.
 type Kernel struct {
-	S        *Src
-	tasks    []*Task
-	cur      *Task
-	mainW    uint32
-	gen      uint64
-	now      time.Time
-	start    time.Time
-	Steps    int
-	MaxSteps int
-	HangNs   int64 // wall-clock limit for one task step
-	events   *event
-	evseq    uint64
-	seq      uint64 // global event sequence (history stamps)
-	abort    bool
-	wg       sync.WaitGroup
-	trace    uint64 // running hash of scheduling decisions
-	Timeouts int    // Block deadlines that expired
-	TimeAdv  int    // number of clock jumps
-	Hung     *Task
+	S          *Src
+	tasks      []*Task
+	cur        *Task
+	mainW      uint32
+	gen        uint64
+	now        time.Time
+	start      time.Time
+	Steps      int
+	MaxSteps   int
+	MaxElapsed time.Duration // virtual-time budget (0 = none)
+	timeUp     bool
+	HangNs     int64 // wall-clock limit for one task step
+	events     *event
+	evseq      uint64
+	seq        uint64 // global event sequence (history stamps)
+	abort      bool
+	wg         sync.WaitGroup
+	trace      uint64 // running hash of scheduling decisions
+	Timeouts   int    // Block deadlines that expired
+	TimeAdv    int    // number of clock jumps
+	Hung       *Task
 }
 
 var (
@@ -219,8 +223,25 @@ func New(s *Src) *Kernel {
 	return k
 }
 
+// inTask reports whether the caller is the task that currently holds the
+// baton. Task goroutines are locked to their OS thread, so the thread id tells
+// a task apart from foreign goroutines that may run library code at any time
+// (finalizers of the certificate cache, the handshake-context interrupter).
+//
 //go:norace
-func inTask() bool { return active.Load() && K != nil && K.cur != nil }
+func inTask() bool {
+	if !active.Load() || K == nil {
+		return false
+	}
+	t := K.cur
+	return t != nil && t.tid == gettid()
+}
+
+//go:norace
+func gettid() uintptr {
+	r, _, _ := syscall.RawSyscall(syscall.SYS_GETTID, 0, 0, 0)
+	return r
+}
 
 // InSim reports whether the caller runs as a kernel task.
 //
@@ -306,7 +327,7 @@ func Lock(try func() bool, lock func()) {
 //go:norace
 func Unlock(unlock func()) {
 	unlock()
-	if active.Load() && K != nil && K.cur != nil {
+	if inTask() {
 		K.gen++
 	}
 }
@@ -459,6 +480,8 @@ func (k *Kernel) Spawn(name string, f func()) *Task {
 
 func run(k *Kernel, t *Task, f func()) {
 	defer k.wg.Done()
+	runtime.LockOSThread() // never unlocked: the thread ends with the goroutine
+	settid(t)
 	fwait(&t.word, 1, 0)
 	defer func() {
 		if r := recover(); r != nil {
@@ -474,6 +497,9 @@ func run(k *Kernel, t *Task, f func()) {
 	}
 	f()
 }
+
+//go:norace
+func settid(t *Task) { t.tid = gettid() }
 
 //go:norace
 func exit(k *Kernel, t *Task) {
@@ -506,6 +532,7 @@ const (
 	Deadlock = "deadlock"
 	Budget   = "step-budget"
 	Hang     = "hang"
+	TimeUp   = "time-budget"
 )
 
 // Run schedules until every task has finished, nothing can ever run again
@@ -532,6 +559,9 @@ func (k *Kernel) Run() string {
 		}
 		if len(en) == 0 {
 			if !k.advance() {
+				if k.timeUp {
+					return TimeUp
+				}
 				return Deadlock
 			}
 			continue
@@ -572,6 +602,10 @@ func (k *Kernel) advance() bool {
 		}
 	}
 	if !have {
+		return false
+	}
+	if k.MaxElapsed > 0 && next.Sub(k.start) > k.MaxElapsed {
+		k.timeUp = true
 		return false
 	}
 	if next.After(k.now) {
